@@ -375,7 +375,9 @@ Fixpoint lfind (fuel : nat) (root : tree) (xs : list pstr) (par : pref) (parv : 
       match child, cpar with
       | Dict c _, PAt cp =>
         (* after the "fix:" commit the unbound recursion also works for a plain dict child *)
-        do (child', m, F) <- find true rl f child xs' (PAt []) child fstr' ;;
+        (* after the "fix:" commit the element is handed over with the found path reset to "/": it is the root of
+           the delegated search, and the '..' step re-resolves the found path from the root it was given *)
+        do (child', m, F) <- find true rl f child xs' (PAt []) child s_root ;;
         Ok ((if m then replace_at root cp child' else root), m, rebase cp F)
       | _, _ => Unmodelled
       end in
